@@ -1,6 +1,7 @@
 import GA.Drv.Iterq
 import GA.Drv.OwnE
 import GA.Drv.HeapE
+import GA.Drv.SerdeE
 import GA.Model.BodyIter
 /-!
 `--body` view of the driver: the `iterq` scenarios and the iterator operations of the `own` engine
@@ -176,5 +177,19 @@ def bodyBoxed (esz al n : Nat) (f : Nat → Option GA.Own.Id) (allocOk : Bool) :
   | _ => ⟨at0, r.1, .ub⟩
 
 def heap (kv : KV) : String := HeapE.answer kv bodyBoxed true
+
+/-- `visit_seq` through the interpreted body (src/impl_serde.rs), in the shape the serde engine reports -/
+def bodyVisit (n : Nat) (s : GA.Serde.Script) : List Ev × GA.Serde.VRes :=
+  let stepAns : GA.Serde.Step → Poll := fun a => match a with | .elem x => .yield x | .fail => .panic | .none => .done
+  let c : Ctx := { n := n, bad := none, fpan := fun _ => false, cl := fun _ => none,
+                   src := fun j => match s.steps[j - s.k]? with | some a => stepAns a | none => .done,
+                   ext := { shint0 := s.hint0, shintEnd := s.hintEnd } }
+  let r := runFn c Gen.Body.intrusiveDrop.body Gen.Body.visitSeq []
+    ⟨⟨[], 0, 0, 0, []⟩, ⟨[], 0, 0, 0, []⟩, false, 0, false, s.k, false, {}⟩
+  match r.2.1 with
+  | .ret (.ok (.arr l)) => (r.1, .ok l)
+  | _ => (r.1, .err)
+
+def serde (kv : KV) : String := SerdeE.answer kv bodyVisit true
 
 end GA.Drv.BodyE
